@@ -611,7 +611,7 @@ func checkC18(c *Ctx) {
 	dirs := make([]string, len(live))
 	sinks := make([]violSink, len(live))
 	for i := range live {
-		dirs[i] = filepath.Join(c.ScratchDir(), "p", "store") // two levels down: ".." stays inside the scratch tree
+		dirs[i] = filepath.Join(c.ScratchDir(), "p", oddDirName(i, "store")) // two levels down: ".." stays inside the scratch tree
 	}
 	parallel(len(live), func(i int) {
 		cs := live[i]
